@@ -121,6 +121,9 @@ int sim_count_threads(void);         // live (not exited) simulated threads
 int sim_count_runnable_others(void);
 uint64_t sim_stat_futex_timeouts(void); // FUTEX_WAIT timeouts that expired so far
 uint64_t sim_stat_idle_jumps(void);
+// FUTEX_WAIT timeouts that fired because nothing else could run (idle clock jump): "the only way
+// forward was a wait backstop" (DESIGN.md §6)
+uint64_t sim_stat_idle_futex_timeouts(void);
 void sim_faults_enable(int on);        // workload phases may switch injection off/on
 void sim_set_fault_rate_scale(int permille);
 
